@@ -137,6 +137,8 @@ let () = run_lines (fun toks ->
      | "s.write" ->
        let (ifp, tail) = threaded (rest 2) (fun ys nn -> Model.primefactor_s isp fuel_loop fuel_loop fuel_loop fuel_rho ys nn) in
        (match Model.write_model ifp fuel_f a.(0) with None -> "NONE" | Some w -> "[" ^ wstring w ^ "]" ^ tail ())
+     | "fermat" -> sz (Model.fermat_model a.(0)) ^ " 1"
+     | "pepin" -> if Model.pepin_model a.(0) then "1" else "0"
      | "erat" -> (match Model.erat_model a.(0) with None -> "NONE" | Some l -> zlist l)
      | "s.miller" -> ob (Model.miller_model (rest 2) a.(0))
      | "ipp" -> (match Model.isprimepower_model isp root (nat_of_int 16) fuel_ipp garbage a.(0) with
